@@ -51,7 +51,8 @@ pub fn prog_faulty(rng: &mut Rng, count: u64, kind: &str, emit: Emit) {
         let mut g = proggen::program(rng, profile);
         let (what, name) = if kind == "loop" { proggen::inject_loop(rng, &mut g) } else { proggen::inject_fault(rng, &mut g) };
         let text = proggen::render_program(&g.stmts);
-        let out = run_program(&text, 2, &g.mem, &format!("(inject {} {}) (text {})", what, name, sexp_escape(&text)));
+        let repeats: u32 = std::env::var("VERIF_REPEATS").ok().and_then(|x| x.parse().ok()).unwrap_or(4);
+        let out = run_program_rep(&text, 2, &g.mem, &format!("(inject {} {}) (text {})", what, name, sexp_escape(&text)), repeats);
         match out.request {
             Some(req) => emit(req, out.result),
             None => emit(format!("(noparse {})", sexp_escape(&text)), out.result),
